@@ -239,8 +239,9 @@ class GroupBase:
             value = [value] * len(idx)
 
         for mdl, ii, val in zip(models, idx, value):
-            uid = mdl.idx2uid(ii)
-            mdl.__dict__[src].__dict__[attr][uid] = val
+            # delegate to the model so that a time constant reaches `dae.Tf` and `TDS.Teye` as it does
+            # through `Model.set`
+            mdl.set(src, ii, attr, val)
 
         return True
 
